@@ -212,6 +212,11 @@ type env struct {
 	contribFetch int
 	asked        []string      // block ids the node was asked a root for
 	selPark      chan struct{} // a selection signer that has not answered yet (closed by the harness)
+	// call sites that make two calls (sites_test.go): a duties request for an epoch from split on is
+	// answered with duties2, and waits at the node until the harness closes dutiesPark
+	split      *uint64
+	duties2    []Duty
+	dutiesPark chan struct{}
 }
 
 type rootCall struct {
@@ -238,7 +243,17 @@ func (e *env) Spec(_ context.Context, _ *api.SpecOpts) (*api.Response[map[string
 	}, Metadata: map[string]any{}}, nil
 }
 
-func (e *env) SyncCommitteeDuties(_ context.Context, opts *api.SyncCommitteeDutiesOpts) (*api.Response[[]*apiv1.SyncCommitteeDuty], error) {
+func (e *env) SyncCommitteeDuties(ctx context.Context, opts *api.SyncCommitteeDutiesOpts) (*api.Response[[]*apiv1.SyncCommitteeDuty], error) {
+	e.mu.Lock()
+	park, second := e.dutiesPark, e.split != nil && uint64(opts.Epoch) >= *e.split
+	e.mu.Unlock()
+	if park != nil && second {
+		select {
+		case <-park:
+		case <-ctx.Done():
+			return nil, ctx.Err()
+		}
+	}
 	e.mu.Lock()
 	defer e.mu.Unlock()
 	ep := uint64(opts.Epoch)
@@ -250,8 +265,12 @@ func (e *env) SyncCommitteeDuties(_ context.Context, opts *api.SyncCommitteeDuti
 	if e.in.DutiesErr {
 		return nil, errors.New("scripted duties failure")
 	}
-	res := make([]*apiv1.SyncCommitteeDuty, 0, len(e.in.Duties))
-	for _, d := range e.in.Duties {
+	ds := e.in.Duties
+	if second {
+		ds = e.duties2
+	}
+	res := make([]*apiv1.SyncCommitteeDuty, 0, len(ds))
+	for _, d := range ds {
 		pos := make([]phase0.CommitteeIndex, 0, len(d.Pos))
 		for _, x := range d.Pos {
 			pos = append(pos, phase0.CommitteeIndex(x))
@@ -1005,10 +1024,13 @@ func jobTerms(js []jobObs) string {
 	return List(jobs)
 }
 
-func term(id uint64, in *Input, obs *observed) string {
-	p := in.Par
-	par := Record("spe", N(p.SPE), "epp", N(p.EPP), "fork", N(p.Fork), "slot_ns", Z(p.SlotNs), "msg_delay", Z(p.MsgDelay),
+func parTerm(p Params) string {
+	return Record("spe", N(p.SPE), "epp", N(p.EPP), "fork", N(p.Fork), "slot_ns", Z(p.SlotNs), "msg_delay", Z(p.MsgDelay),
 		"agg_delay", Z(p.AggDelay), "csize", N(p.Size), "subnets", N(p.Subnets), "target", N(p.Target))
+}
+
+func term(id uint64, in *Input, obs *observed) string {
+	par := parTerm(in.Par)
 	sin := schedInTerm(in.Epoch, in.Cur, in.NotCur, in.Indices, in.Duties, in.DutiesErr, in.Accts, in.AcctsErr)
 	fires := make([]string, 0, len(in.Fires))
 	for k := range in.Fires {
@@ -1105,6 +1127,9 @@ func genParams(r *Rand) Params {
 
 func gen(r *Rand) Input {
 	if r.Chance(1, 5) {
+		if r.Chance(2, 5) {
+			return genSites(r)
+		}
 		return genHist(r)
 	}
 	if r.Chance(1, 6) {
